@@ -1,4 +1,4 @@
-import WfProofs.StateStoreConc
+import WfProofs.StateStoreSpawn
 /-!
 # C20 — concurrent state updates are never lost
 
@@ -14,6 +14,11 @@ Cancellation (`*_under_cancellation`, `*_with_cancel`): a schedule is a list of 
 before it started, while it is queued on the lock (future cancelled, or lock already handed over),
 or at an await inside its `edit_state` body.  That a cancelled waiter leaves the lock alone is the
 scoping of the lock by `async with`, read from the source (`GenStateStore.*LockScoped`).
+
+Tasks created by tasks (`*_with_spawned_tasks`): `sp c = some (p, k)` — task `c` is created
+(`asyncio.create_task`) by chunk `k` of the `edit_state` body of task `p`, inside the open block,
+and inherits a copy of `p`'s context; it cannot run or be cancelled before.  That the stores cannot
+tell such a task from any other is read from the source (`GenStateStore.*ContextFree`).
 -/
 open StateStore
 
@@ -329,3 +334,111 @@ example : ∃ s, Sys.execAll sqlBackend C20_leakProg (Sys.init C20_cancelInit 3)
 example : ∃ s, Sys.execAll memBackend C20_leakProg (Sys.init C20_cancelInitMem 3)
       [.run 0, .run 1, .cancel 1, .run 1, .run 2, .run 0, .run 2] = some s ∧
     s.allDoneOrCancelled = true ∧ s.store.root.data = [("x", .int 5)] := ⟨_, rfl, by rfl, by rfl⟩
+
+/-! ### tasks created inside an open `edit_state` block -/
+
+/-- the store modules hold no per-task / per-context / per-thread state (no `contextvars`,
+`threading`, `current_task`), as found in the source: a task created inside an open `edit_state`
+block, which starts with a copy of its creator's context, is a task like any other for the stores -/
+theorem C20_source_shape_context_free :
+    GenStateStore.memContextFree = true ∧ GenStateStore.sqlContextFree = true := by decide
+
+/-- Serialisability with spawned tasks.  For every program, every assignment `sp` of creators
+(task `c` is created by chunk `k` of the `edit_state` body of task `p`; any shape: several children
+per chunk, children of children), every initial store and every schedule of `run` / `cancel` actions
+after which every task that was created has ended (a task whose creator never reached the creating
+chunk does not exist): the final store is the serial execution, in some order, of exactly the tasks
+that took effect — the created task's operation is one more operation — and in that order the
+creator's block comes before the operation of every task it created: what a task started from inside
+a block writes is never overwritten by that block, and never lands inside another open block.
+Both backends. -/
+theorem C20_serialisable_with_spawned_tasks (prog : List COp) (sp : Spawn) (sched : List Act) :
+    (∀ (m0 : Mem) (s : SpSys Mem), SpSys.execAll memBackend prog sp (SpSys.init m0 prog.length) sched = some s →
+      s.allEnded sp = true →
+      ∃ order : List Nat, order.Nodup ∧
+        (∀ t, t ∈ order ↔ (s.sys.pcs[t]? = some Pc.done ∨ ∃ kept, s.sys.pcs[t]? = some (Pc.aborted kept))) ∧
+        (∀ c p k : Nat, sp c = some (p, k) → c ∈ order → Before order p c) ∧
+        s.sys.store = serialBy memBackend (effOp prog s.sys.pcs) m0 order) ∧
+    (∀ (q0 : Sql) (s : SpSys Sql), SpSys.execAll sqlBackend prog sp (SpSys.init q0 prog.length) sched = some s →
+      s.allEnded sp = true →
+      ∃ order : List Nat, order.Nodup ∧
+        (∀ t, t ∈ order ↔ (s.sys.pcs[t]? = some Pc.done ∨ ∃ kept, s.sys.pcs[t]? = some (Pc.aborted kept))) ∧
+        (∀ c p k : Nat, sp c = some (p, k) → c ∈ order → Before order p c) ∧
+        s.sys.store = serialBy sqlBackend (effOp prog s.sys.pcs) q0 order) := by
+  constructor
+  · intro m0 s hrun hend
+    obtain ⟨order, hnd, hmem, hbef, hst⟩ := serialisable_with_spawns memBackend memBackend_locks memBackend_scoped
+      mem_editLaw mem_publishLaw mem_abortLaw prog sp m0 sched s hrun hend
+    exact ⟨order, hnd, fun t => by rw [hmem t, eff_iff], hbef, hst⟩
+  · intro q0 s hrun hend
+    obtain ⟨order, hnd, hmem, hbef, hst⟩ := serialisable_with_spawns sqlBackend sqlBackend_locks sqlBackend_scoped
+      sql_editLaw sql_publishLaw sql_abortLaw prog sp q0 sched s hrun hend
+    exact ⟨order, hnd, fun t => by rw [hmem t, eff_iff], hbef, hst⟩
+
+/-- a task that has not been created has done nothing (it is not even queued on the lock), and a
+program without spawns runs exactly as the plain system of the theorems above -/
+theorem C20_spawned_task_waits_for_its_creation (prog : List COp) (sp : Spawn) (sched : List Act) :
+    (∀ (m0 : Mem) (s : SpSys Mem), SpSys.execAll memBackend prog sp (SpSys.init m0 prog.length) sched = some s →
+      ∀ c, s.live sp c = false → c < prog.length → s.sys.pcs[c]? = some Pc.idle ∧ c ∉ s.sys.queue ∧ c ∉ s.sys.log) ∧
+    (∀ (q0 : Sql) (s : SpSys Sql), SpSys.execAll sqlBackend prog sp (SpSys.init q0 prog.length) sched = some s →
+      ∀ c, s.live sp c = false → c < prog.length → s.sys.pcs[c]? = some Pc.idle ∧ c ∉ s.sys.queue ∧ c ∉ s.sys.log) ∧
+    (∀ (m0 : Mem), (SpSys.execAll memBackend prog (fun _ => none) (SpSys.init m0 prog.length) sched).map (·.sys) =
+      Sys.execAll memBackend prog (Sys.init m0 prog.length) sched) ∧
+    (∀ (q0 : Sql), (SpSys.execAll sqlBackend prog (fun _ => none) (SpSys.init q0 prog.length) sched).map (·.sys) =
+      Sys.execAll sqlBackend prog (Sys.init q0 prog.length) sched) :=
+  ⟨fun m0 s hrun c hl hc => unborn_untouched memBackend memBackend_locks memBackend_scoped mem_editLaw mem_publishLaw
+      mem_abortLaw prog sp m0 sched s hrun c hl hc,
+   fun q0 s hrun c hl hc => unborn_untouched sqlBackend sqlBackend_locks sqlBackend_scoped sql_editLaw sql_publishLaw
+      sql_abortLaw prog sp q0 sched s hrun c hl hc,
+   fun _ => spExecAll_no_spawn memBackend prog sched _, fun _ => spExecAll_no_spawn sqlBackend prog sched _⟩
+
+/-- task 0 records in an `edit_state` block that it starts a worker and creates it there (task 2,
+a `set`); later task 1 is inside its own two-chunk block when the worker's first section runs: the
+worker queues on the lock and writes after the block -/
+def C20_spawnProg : List COp :=
+  [.edit [[.setKey "w" (.int 1)]], .edit [[.incr "x" 1], [.incr "x" 1]], .set "x" (.int 10)]
+def C20_spawnMap : Spawn := fun c => if c = 2 then some (0, 0) else none
+
+example : ∃ s, SpSys.execAll memBackend C20_spawnProg C20_spawnMap (SpSys.init C20_cancelInitMem 3)
+      [.run 0, .run 1, .run 2, .run 1, .run 2] = some s ∧
+    s.allEnded C20_spawnMap = true ∧ s.sys.log = [0, 1, 2] ∧ s.born = [2] ∧
+    s.sys.store.root.data = [("x", .int 10), ("w", .int 1)] := ⟨_, rfl, by rfl, by rfl, by rfl, by rfl⟩
+
+/-- before task 0 has run, task 2 does not exist: no section of it can run, nothing to cancel -/
+example : SpSys.exec memBackend C20_spawnProg C20_spawnMap (SpSys.init C20_cancelInitMem 3) (.run 2) = none ∧
+    SpSys.exec memBackend C20_spawnProg C20_spawnMap (SpSys.init C20_cancelInitMem 3) (.cancel 2) = none :=
+  ⟨rfl, rfl⟩
+
+/-- the creator is cancelled before it reaches the creating chunk: the worker never exists, the run is over -/
+example : ∃ s, SpSys.execAll sqlBackend C20_spawnProg C20_spawnMap (SpSys.init C20_cancelInit 3)
+      [.cancel 0, .run 0, .run 1, .run 1] = some s ∧
+    s.allEnded C20_spawnMap = true ∧ s.born = [] ∧ s.sys.log = [1] ∧
+    s.sys.store.row = some [("x", .int 2)] := ⟨_, rfl, by rfl, by rfl, by rfl, by rfl⟩
+
+/-- a store whose `set` does not take the lock when called by a task created inside a block (here:
+by anybody) -/
+def sqlBackendSetUnlocked : Backend Sql :=
+  { sqlBackend with locks := fun
+      | .set .. => false
+      | _ => true }
+
+def C20_spawnLeakProg : List COp := [.edit [[], [.setKey "y" (.int 1)]], .set "x" (.int 5)]
+def C20_spawnLeakMap : Spawn := fun c => if c = 1 then some (0, 0) else none
+
+/-- with such a store the three-action schedule `edit₀: load, create the worker · worker: set(x, 5)
+· edit₀: body, save` ends in `{x: 0, y: 1}`: the worker's completed `set` is overwritten by the block
+that created it, although both serial orders keep it — the theorem above is false for that store -/
+theorem C20_spawned_writer_skipping_lock_loses_update :
+    ∃ s, SpSys.execAll sqlBackendSetUnlocked C20_spawnLeakProg C20_spawnLeakMap (SpSys.init C20_cancelInit 2)
+        [.run 0, .run 1, .run 0] = some s ∧
+      s.allEnded C20_spawnLeakMap = true ∧ s.sys.log = [1, 0] ∧
+      s.sys.store.row = some [("x", .int 0), ("y", .int 1)] ∧ hasX5 s.sys.store = false ∧
+      hasX5 (serial sqlBackendSetUnlocked C20_spawnLeakProg C20_cancelInit [0, 1]) = true ∧
+      hasX5 (serial sqlBackendSetUnlocked C20_spawnLeakProg C20_cancelInit [1, 0]) = true :=
+  ⟨_, rfl, by rfl, by rfl, by rfl, by rfl, by rfl, by rfl⟩
+
+/-- the same schedule on the store as it is: the worker queues behind the block that created it -/
+example : ∃ s, SpSys.execAll sqlBackend C20_spawnLeakProg C20_spawnLeakMap (SpSys.init C20_cancelInit 2)
+      [.run 0, .run 1, .run 0, .run 1] = some s ∧
+    s.allEnded C20_spawnLeakMap = true ∧ s.sys.log = [0, 1] ∧
+    s.sys.store.row = some [("x", .int 5), ("y", .int 1)] := ⟨_, rfl, by rfl, by rfl, by rfl⟩
